@@ -344,6 +344,10 @@ def aux_of(scenario, pidx):
     # would otherwise never be hit)
     out['cov'] = np.array(scenario['aux'][0]['cov'], dtype=float)
     out['ind'] = pidx
+    # the caller's own arrays (checked for modification after the call)
+    for k in ('times', 'times_unsorted'):
+        if k in out:
+            out[k] = np.array(out[k], dtype=float)
     return out
 
 
